@@ -159,7 +159,7 @@ impl Decoder for RawMapOperationDecoder {
                 frame.advance(TAG_SIZE);
                 let key_len = frame.get_u64() as usize;
 
-                if key_len + LEN_SIZE + TAG_SIZE > total_len {
+                if key_len > total_len - (LEN_SIZE + TAG_SIZE) {
                     return Err(FrameIoError::BadFrame(InvalidFrame::InvalidHeader {
                         problem: Text::from(format!("{}{}", BAD_KEY_SIZE, key_len)),
                     }));
